@@ -46,7 +46,7 @@ Stat0 == [cases |-> 0, pubs |-> 0, accepted |-> 0, rejected |-> 0, hist |-> 0, e
 DummyCfg == [kind |-> "conv", rfc |-> 1, rgen |-> 1, redrv |-> 1, rres |-> 1, floor |-> 0, lag |-> 1, aux |-> 0,
              auxkd |-> 0, idle |-> 0, kf |-> 1, kg |-> 1, ke |-> 1, kr |-> 1, flat |-> TRUE, cap |-> 16, smin |-> 0,
              slo |-> 0, shi |-> 16, smax |-> 16, delta |-> 1, ps |-> 1, ds |-> 1, lat |-> FALSE, assert |-> TRUE,
-             pb0 |-> 0, haux |-> 0, split2 |-> 1, gssr |-> 0, gssk |-> 0, glo_f |-> 0, ghi_f |-> 0, glo_g |-> 0, ghi_g |-> 0, glo_e |-> 0, ghi_e |-> 0, bnd |-> "n", rtout |-> 0]
+             pb0 |-> 0, haux |-> 0, split2 |-> 1, gssr |-> 0, gssk |-> 0, glo_f |-> 0, ghi_f |-> 0, glo_g |-> 0, ghi_g |-> 0, glo_e |-> 0, ghi_e |-> 0, bnd |-> "n", rtout |-> 0, lpub |-> 0, ekx |-> 1]
 
 TInit == /\ l = 1 /\ viol = <<>> /\ stats = Stat0 /\ l0 = 1 /\ rep = {} /\ nk = [x \in KnownNames |-> 0] /\ pex = TRUE /\ drifts = <<>>
          /\ cfg = DummyCfg /\ soc0 = 0 /\ soc = 0 /\ psoc = 0
@@ -68,7 +68,7 @@ Reset(r) == /\ soc' = soc0' /\ psoc' = soc0'
             /\ gap' = 0 /\ safe' = TRUE /\ ex' = TRUE /\ i' = 1 /\ n' = 0 /\ hist' = <<>> /\ pex' = TRUE
 
 Begin == /\ Rec[l].ev = "begin"
-         /\ cfg' = Rec[l].desc.cfg @@ [pb0 |-> 0, haux |-> 0, split2 |-> 1, gssr |-> 0, gssk |-> 0, glo_f |-> 0, ghi_f |-> 0, glo_g |-> 0, ghi_g |-> 0, glo_e |-> 0, ghi_e |-> 0, bnd |-> "n", rtout |-> 0]     \* descriptors older than the hybrid extension
+         /\ cfg' = Rec[l].desc.cfg @@ [pb0 |-> 0, haux |-> 0, split2 |-> 1, gssr |-> 0, gssk |-> 0, glo_f |-> 0, ghi_f |-> 0, glo_g |-> 0, ghi_g |-> 0, glo_e |-> 0, ghi_e |-> 0, bnd |-> "n", rtout |-> 0, lpub |-> 0, ekx |-> 1]     \* descriptors older than the hybrid extension
          /\ soc0' = Rec[l].desc.soc0
          /\ Reset(Rec[l]) /\ l0' = l /\ rep' = {}
          /\ Bump([cases |-> 1, in_conv |-> B(cfg'.kind = "conv"), in_bel |-> B(cfg'.kind = "bel"), in_hyb |-> B(cfg'.kind = "hyb"),
@@ -91,7 +91,7 @@ AccChecks == <<
    <<"SocWindow", SocWindow'>> >>
 
 (* requests issued by the driver (call-by-call records only), by class group *)
-LimitCls == {"pubm", "pub", "pubp", "over", "rate", "ratep", "f7", "f8"}
+LimitCls == {"pubm", "pub", "pubp", "over", "o2", "o4", "o8", "rate", "ratep", "f7", "f8"}
 RegenCls == {"regenm", "regen", "regenp", "r7", "r8"}
 BrakeCls == {"dyn", "dynp", "b1", "b2", "b3", "b4", "b8"}
 LowCls == {"zero", "f0", "f1"}
@@ -125,7 +125,7 @@ AccStats(r) == [accepted |-> B(~r.walk), hist |-> B(r.walk), exact |-> B(ex'), i
                 bh_ResRating |-> B(HasRes /\ Near(Abs(r.p.elec), cfg.rres)),
                 bh_ResDisch |-> B(HasRes /\ r.p.elec > 0 /\ Near(r.p.elec, pub.disch)),
                 bh_ResCharge |-> B(HasRes /\ r.p.elec < 0 /\ Near(-r.p.elec, pub.charge)),
-                bh_LocoPub |-> B(cfg.flat /\ r.req > 0 /\ Near(r.p.out, pub.loco)),
+                bh_LocoPub |-> B((cfg.flat \/ cfg.lpub = 1) /\ r.req > 0 /\ Near(r.p.out, pub.loco)),
                 oog_f_lo |-> B(r.oog.f < 0), oog_f_hi |-> B(r.oog.f > 0), oog_g_lo |-> B(r.oog.g < 0), oog_g_hi |-> B(r.oog.g > 0),
                 oog_e_lo |-> B(r.oog.e < 0), oog_e_hi |-> B(r.oog.e > 0), oog_rt_lo |-> B(r.oog.rt < 0), oog_rt_hi |-> B(r.oog.rt > 0),
                 oog_rs_lo |-> B(r.oog.rs < 0), oog_rs_hi |-> B(r.oog.rs > 0), oog_rc_lo |-> B(r.oog.rc < 0), oog_rc_hi |-> B(r.oog.rc > 0),
